@@ -10,9 +10,11 @@
   that this is what `multiprocessing.Pool.starmap` does is trusted and exercised by the tier-B runs.
 -/
 import IbicusModel.Lemmas.Grid
+import IbicusModel.Lemmas.GridState
+import IbicusModel.Lemmas.GenGridDispatch
 
 namespace Props.C05
-open Model.Grid Lemmas.Grid
+open Model.Grid Lemmas.Grid Lemmas.GridState
 
 variable {α ε : Type}
 
@@ -276,6 +278,166 @@ example : applySerial (ε := String) (fun c => if c = (0, 1) then .ok [1, 2, 3] 
     .error .broadcast := by decide
 example : applyParallel (ε := String) (fun c => if c = (0, 1) then .ok [1, 2, 3] else .ok [1, 2]) true 2 2 2 [3, 2, 1, 0] =
     .error .broadcast := by decide
+
+end Example
+
+/-! ## Round 4: input columns, keyword arguments, the pool's chunking, instance state, dispatch -/
+
+/-- **`obs[:, i, j]` is the column**: for an input of shape `(T, nx, ny)` and a cell inside the grid, `slice` has the
+    array's time length and its `t`-th element is `a[t, i, j]` (so the data-level theorems above speak about the real
+    columns; outside the shape numpy raises, which cannot happen because indices come from the shape). -/
+theorem input_slice_is_column {β : Type} (a : Arr3 β) (T nx ny i j : Nat) (h : Shaped a T nx ny) (hi : i < nx) (hj : j < ny) :
+    (slice a i j).length = T ∧ ∀ t, (slice a i j)[t]? = get3 a t i j :=
+  ⟨slice_length h hi hj, fun t => slice_getElem? h hi hj t⟩
+
+example : Shaped Example.fut 3 2 3 ∧ (1 : Nat) < 2 ∧ (2 : Nat) < 3 := by decide
+
+/-- no cross-cell leakage on data, `DeltaChange.apply` (the output follows `obs`) -/
+theorem deltachange_data_cell_independence (loc : LocFn α ε) (fs : Bool) (obs hist fut obs' hist' fut' : Arr3 α)
+    (nx ny : Nat) (m m' : Mode) (hm : ModeOk m nx ny) (hm' : ModeOk m' nx ny) (out out' : Arr3 (Elem α))
+    (h : deltaChangeApply loc fs obs hist fut nx ny m = .ok out)
+    (h' : deltaChangeApply loc fs obs' hist' fut' nx ny m' = .ok out')
+    (hT : obs.length = obs'.length)
+    (i j : Nat) (hi : i < nx) (hj : j < ny)
+    (ho : slice obs i j = slice obs' i j) (hh : slice hist i j = slice hist' i j)
+    (hf : slice fut i j = slice fut' i j) :
+    slice out i j = slice out' i j := by
+  unfold deltaChangeApply at h h'
+  rw [← hT] at h'
+  apply cell_independence _ _ fs _ nx ny m m' hm hm' out out' h h' i j hi hj
+  show loc _ _ _ = loc _ _ _
+  rw [ho, hh, hf]
+
+/-- **Keyword arguments reach every location unchanged**, in every mode, for `Debiaser.apply` … -/
+theorem kwargs_forwarded {κ : Type} (loc : LocFnKw κ α ε) (kw : κ) (fs : Bool) (obs hist fut : Arr3 α) (nx ny : Nat)
+    (m : Mode) (hm : ModeOk m nx ny) (out : Arr3 (Elem α))
+    (h : debiaserApplyKw loc kw fs obs hist fut nx ny m = .ok out)
+    (i j : Nat) (hi : i < nx) (hj : j < ny) (v : List α)
+    (hv : loc kw (slice obs i j) (slice hist i j) (slice fut i j) = .ok v) (hl : v.length = fut.length) :
+    slice out i j = v.map (fun x => some (.val x)) :=
+  debiaser_cellwise (loc kw) fs obs hist fut nx ny m hm out h i j hi hj v hv hl
+
+/-- … and for `DeltaChange.apply` -/
+theorem deltachange_kwargs_forwarded {κ : Type} (loc : LocFnKw κ α ε) (kw : κ) (fs : Bool) (obs hist fut : Arr3 α)
+    (nx ny : Nat) (m : Mode) (hm : ModeOk m nx ny) (out : Arr3 (Elem α))
+    (h : deltaChangeApplyKw loc kw fs obs hist fut nx ny m = .ok out)
+    (i j : Nat) (hi : i < nx) (hj : j < ny) (v : List α)
+    (hv : loc kw (slice obs i j) (slice hist i j) (slice fut i j) = .ok v) (hl : v.length = obs.length) :
+    slice out i j = v.map (fun x => some (.val x)) :=
+  deltachange_cellwise (loc kw) fs obs hist fut nx ny m hm out h i j hi hj v hv hl
+
+/-! ### dispatch: the four call sites of the source (tier A: `Lemmas.GenGridDispatch`) -/
+
+open Model.GridDispatch in
+/-- the table has exactly the four paths class × branch -/
+theorem dispatch_complete :
+    paths.map (fun p => (p.cls, p.parallel)) =
+      [("Debiaser", true), ("Debiaser", false), ("DeltaChange", true), ("DeltaChange", false)] := by decide
+
+open Model.GridDispatch in
+/-- **Every call site computes what the property demands of it**: the output is sized by `cm_future` (by `obs` for
+    DeltaChange) in the serial *and* in the parallel branch, the mode matches the branch, the failsafe flag and the
+    keyword arguments are forwarded — for all data, flags, keyword arguments (`kw` whatever `noKw` is) and schedules. -/
+theorem dispatch_correct {κ : Type} (p : Path) (hp : p ∈ paths) (loc : LocFnKw κ α ε) (kw noKw : κ) (fs : Bool)
+    (obs hist fut : Arr3 α) (nx ny : Nat) (sched : List Nat) :
+    interp p loc kw noKw fs obs hist fut nx ny sched = some (spec p.cls p.parallel loc kw fs obs hist fut nx ny sched) := by
+  simp only [paths, List.mem_cons, List.not_mem_nil, or_false] at hp
+  rcases hp with rfl | rfl | rfl | rfl <;> rfl
+
+open Model.GridDispatch in
+/-- the statements the model of the map functions was written from (regenerated from the source on every run):
+    `starmap` gets no extra keyword (no explicit chunk size), the failsafe value is the scalar `np.nan`, only `Exception`
+    is caught and re-raised unchanged otherwise, the serial loop runs over `np.ndindex`, the write-back over the very index
+    list the arguments were built from -/
+theorem map_function_statements :
+    fact "parallel.map_keywords" = some "" ∧
+    fact "parallel.map_function" = some "pool.starmap" ∧
+    fact "parallel.map_arg1" = some "[(obs[:, i, j], cm_hist[:, i, j], cm_future[:, i, j]) for i, j in indices]" ∧
+    fact "parallel.indices" = some "[(i, j) for i in range(obs.shape[1]) for j in range(obs.shape[2])]" ∧
+    fact "parallel.writeback_loop" = some "for (k, index) in enumerate(indices)" ∧
+    fact "parallel.writeback" = some "output[:, index[0], index[1]] = result[k]" ∧
+    fact "serial.indices" = some "np.ndindex(obs.shape[1:])" ∧
+    fact "serial.assign_target" = some "output[:, i, j]" ∧
+    fact "catch.try" = some "return func(obs, cm_hist, cm_future, **kwargs)" ∧
+    fact "catch.except" = some "Exception" ∧
+    fact "catch.failsafe_exits" = some "return np.nan" ∧
+    fact "catch.else" = some "raise" := by decide +kernel
+
+/-! ### the pool's chunking -/
+
+/-- `Pool._get_tasks`: the chunks are consecutive, at most `k` long, and together they are the argument list -/
+theorem chunks_partition {β : Type} (k : Nat) (hk : 1 ≤ k) (l : List β) :
+    (chunksOf k l).flatten = l ∧ ∀ ch ∈ chunksOf k l, ch.length ≤ k :=
+  ⟨flatten_chunksOf k hk l, chunk_length_le k l.length l⟩
+
+example : chunksOf 3 [1, 2, 3, 4, 5, 6, 7] = [[1, 2, 3], [4, 5, 6], [7]] := by decide
+
+/-- the default chunk size is at least 1 for a non-empty grid (so `chunks_partition` applies), is exactly 1 when there are
+    at most four cells per worker (in particular when there are more workers than cells), and `4 * processes` chunks of
+    that size cover all cells -/
+theorem default_chunksize (n p : Nat) (hn : 1 ≤ n) (hp : 1 ≤ p) :
+    1 ≤ defaultChunksize n p ∧ (n ≤ p * 4 → defaultChunksize n p = 1) ∧ n ≤ defaultChunksize n p * (p * 4) :=
+  ⟨defaultChunksize_pos n p hn, defaultChunksize_small n p hn, defaultChunksize_covers n p hp⟩
+
+example : defaultChunksize 3 4 = 1 ∧ defaultChunksize 9 1 = 3 ∧ defaultChunksize 9 2 = 2 ∧ defaultChunksize 6 8 = 1 := by decide
+
+/-- legacy (a mutant): `chunksize = len(indices) // nr_processes` is 0 when there are more processes than cells -/
+example : 3 / 4 = 0 ∧ (chunksOf 0 [(0, 0), (0, 1), (0, 2)]).flatten ≠ [((0 : Nat), (0 : Nat)), (0, 1), (0, 2)] := by decide
+
+/-! ### instance state (`f s c = (result, state left behind)`) -/
+
+/-- **A debiaser that does not change itself: chunked pool = serial loop.**  For every chunk size `k ≥ 1`, every completion
+    order of the chunks (any number of workers), every state `s0` the instance is in: the parallel run returns `(out, s)`
+    iff `s = s0` and the serial loop of the location function *as configured* (`frozen f s0`) returns `out`. -/
+theorem pure_instance_parallel_iff_serial {σ : Type} (f : StCell σ α ε) (hf : PureSt f) (fs : Bool) (T nx ny : Nat) (s0 : σ)
+    (k : Nat) (hk : 1 ≤ k) (sched : List Nat)
+    (hs : sched.Perm (List.range (chunksOf k (pairIndices nx ny)).length)) (out : Arr3 (Elem α)) (s : σ) :
+    applyParallelSt f fs T nx ny s0 k sched = .ok (out, s) ↔
+      s = s0 ∧ applySerial (frozen f s0) fs T nx ny = .ok out :=
+  parallelSt_ok_iff f hf fs T nx ny s0 k hk sched hs out s
+
+/-- **… and the serial run leaves such an instance as it found it** and is the stateless serial run -/
+theorem pure_instance_serial {σ : Type} (f : StCell σ α ε) (hf : PureSt f) (fs : Bool) (T nx ny : Nat) (s0 : σ) :
+    applySerialSt f fs T nx ny s0 = (applySerial (frozen f s0) fs T nx ny).map (fun o => (o, s0)) :=
+  serialSt_pure f hf fs T nx ny s0
+
+/-- consequently all of `apply_cellwise`, `cell_independence`, … hold for the stateful runs of a pure instance; e.g.
+    cell-wise for the chunked pool: -/
+theorem pure_instance_parallel_cellwise {σ : Type} (f : StCell σ α ε) (hf : PureSt f) (fs : Bool) (T nx ny : Nat) (s0 : σ)
+    (k : Nat) (hk : 1 ≤ k) (sched : List Nat)
+    (hs : sched.Perm (List.range (chunksOf k (pairIndices nx ny)).length)) (out : Arr3 (Elem α)) (s : σ)
+    (h : applyParallelSt f fs T nx ny s0 k sched = .ok (out, s))
+    (i j : Nat) (hi : i < nx) (hj : j < ny) (v : List α) (hv : (f s0 (i, j)).1 = .ok v) (hl : v.length = T) :
+    slice out i j = v.map (fun x => some (.val x)) :=
+  apply_cellwise (frozen f s0) fs T nx ny .serial trivial out
+    ((parallelSt_ok_iff f hf fs T nx ny s0 k hk sched hs out s).mp h).2 i j hi hj v hv hl
+
+/-- **The parent's instance is never changed by a parallel run**, whatever the location function does to the copy it
+    runs on (every chunk works on its own pickled copy). -/
+theorem parallel_never_changes_parent_instance {σ : Type} (f : StCell σ α ε) (fs : Bool) (T nx ny : Nat) (s0 : σ) (k : Nat)
+    (sched : List Nat) (out : Arr3 (Elem α)) (s : σ) (h : applyParallelSt f fs T nx ny s0 k sched = .ok (out, s)) :
+    s = s0 :=
+  parallelSt_parent_state f fs T nx ny s0 k sched out s h
+
+namespace Example
+
+/-- a debiaser that counts its calls and lets the count leak into the result (NOT pure) -/
+def counting : StCell Nat Nat String := fun s c => (.ok [100 * c.1 + 10 * c.2 + s], s + 1)
+
+/-- a pure one -/
+def constant : StCell Nat Nat String := fun s c => (.ok [100 * c.1 + 10 * c.2 + s], s)
+
+example : PureSt constant := fun _ _ => rfl
+
+/-- pure: serial = chunked pool (chunks of 2, completed in the order 2, 0, 1), state kept -/
+example : applySerialSt constant false 1 2 3 7 = applyParallelSt constant false 1 2 3 7 2 [2, 0, 1] := by rfl
+
+/-- legacy / necessity of `PureSt`: the counting debiaser gives 0..5 serially, restarts in every chunk in the pool, and the
+    serial run leaves the instance changed while the parallel run does not -/
+example : applySerialSt counting false 1 2 3 0 =
+    .ok ([[[some (.val 0), some (.val 11), some (.val 22)], [some (.val 103), some (.val 114), some (.val 125)]]], 6) := by rfl
+example : applyParallelSt counting false 1 2 3 0 2 [2, 0, 1] =
+    .ok ([[[some (.val 0), some (.val 11), some (.val 20)], [some (.val 101), some (.val 110), some (.val 121)]]], 0) := by rfl
 
 end Example
 
